@@ -19,6 +19,7 @@ import (
 	"bufio"
 	"encoding/json"
 	"os"
+	"time"
 
 	"github.com/openfga/openfga/internal/verifharness/lib/rec"
 )
@@ -52,6 +53,9 @@ func runOne(w *rec.Writer, d caseDesc) {
 
 func main() {
 	o := rec.ParseFlags()
+	if os.Getenv("C09_DEBUG") != "" {
+		pollLimit = 3 * time.Second
+	}
 	w := rec.NewWriter(o.Out)
 	defer w.Close()
 
